@@ -965,8 +965,9 @@ func specTunnelOK(h *HostInfo) bool {
 //@   assigns h.in
 
 //@ func (*Interface).readOutsidePackets
-//@   props C12 C14
+//@   props C12 C14 C35
 //@   closed
+//@   callrequires HandleRequest same(arg2, hostinfo.vpnAddrs)
 //@   ghost H0 func(uint64) bool
 //@   ghost H func(uint64) bool
 //@   ghost k uint64
